@@ -172,8 +172,32 @@ impl<'a> Gen<'a> {
     pub fn valid_any(&mut self) -> Vec<u8> {
         if self.r.chance(1, 2) { self.valid_classic() } else { self.valid_ietf() }
     }
+    /// Parsable-but-degenerate datagrams of a valid request length: messages with fewer fields than a request
+    /// needs (none at all, one, or one of the required ones missing). They must be judged on their own content
+    /// only — whatever an earlier datagram made the parser or the server remember.
+    pub const DEGENERATE_KINDS: usize = 9;
+    pub fn degenerate(&mut self, k: usize) -> Vec<u8> {
+        let len = *self.r.pick(&[1024usize, 1028, 1200, 1500]);
+        let n32 = self.r.bytes(32);
+        let n64 = self.r.bytes(64);
+        match k % Self::DEGENERATE_KINDS {
+            0 => { let mut body = vec![0u8; len - 12]; body[0..4].copy_from_slice(&0u32.to_le_bytes()); frame(&body) } // framed, zero tags
+            1 => vec![0u8; len],                                                                    // classic, zero tags
+            2 => frame(&enc_msg(&[(b"NONC", { let mut v = n32.clone(); v.resize(len - 12 - 8, 0); v })])), // framed, NONC only (long)
+            3 => frame(&enc_msg(&[(b"VER\0", { let mut v = VER13.to_vec(); v.resize(len - 12 - 8, 0); v })])), // framed, VER only (long list)
+            4 => frame(&enc_msg(&[(b"NONC", n32.clone()), (b"ZZZZ", vec![0u8; len - 12 - 16 - 32])])),   // framed, no VER
+            5 => frame(&enc_msg(&[(b"VER\0", VER13.to_vec()), (b"ZZZZ", vec![0u8; len - 12 - 16 - 4])])), // framed, no NONC
+            6 => frame(&enc_msg(&[(b"ZZZZ", vec![0u8; len - 12 - 8])])),                                  // framed, padding only
+            7 => enc_msg(&[(b"PAD\xff", vec![0u8; len - 8])]),                                           // classic, padding only
+            _ => { let _ = &n64; frame(&enc_msg(&[(b"SRV\0", self.srv.clone()), (b"ZZZZ", vec![0u8; len - 12 - 16 - 32])])) } // framed, SRV only
+        }
+    }
     /// near-valid mutant or junk
     pub fn invalid(&mut self) -> Vec<u8> {
+        if self.r.chance(1, 6) {
+            let k = self.r.below(Self::DEGENERATE_KINDS as u64) as usize;
+            return self.degenerate(k);
+        }
         match self.r.below(18) {
             0 => vec![],
             1 => { let n = self.r.below(64) as usize; self.r.bytes(n) }
